@@ -147,8 +147,8 @@ GET_STATS = dict(
 )
 
 CONTRACTS = [PERCENTILE_VALUE, METRICS, PFSS, GET_PERCENTILES, GET_STATS]
-ASSUMPTIONS = ["exact-real arithmetic for percentile interpolation (floats as reals)"]
-NOT_DECIDED = ["InMemoryMetricsStore filters / get_stats / error rate, result assembly (GlobalStatsCalculator.__call__) and the race.json round trip are covered by the bounded stand-in and the call-site obligations only"]
+ASSUMPTIONS = ["exact-real arithmetic for percentile interpolation (floats as reals)", "sorted() on numbers: same length, ascending, a rearrangement of its argument (assumed external)", "statistics.mean and sum are uninterpreted", "get_percentiles is called with an explicit ascending percentile list (as percentiles_for_sample_size, proved, provides)"]
+NOT_DECIDED = ["InMemoryMetricsStore._get filters, get_error_rate, mean/sum values of get_stats, result assembly (GlobalStatsCalculator.__call__, summary_stats, single_latency) and the race.json round trip are covered by the bounded stand-in and the call-site obligations only"]
 TRUSTED = []
 
 
